@@ -15,6 +15,7 @@ pub fn dispatch(f: &[String]) -> String
         "lc" => op_lc(f),
         "nav" => op_nav(f),
         "drv" => op_drv(f),
+        "parse" => op_parse(f),
         "ofmt" => op_ofmt(f),
         _ => format!("{{\"unknown_op\":{}}}", json::string(&f[0])),
     }
@@ -558,4 +559,98 @@ fn op_drv(f: &[String]) -> String
     };
     format!("{{\"ok\":{},\"has_output\":{},\"iters\":{},\"nerrors\":{},\"messages\":[{}],\"writes\":[{}]}}",
         ok, has_output, match iters { Some(i) => i.to_string(), None => "null".to_string() }, nerrors, msgs.join(","), writes.join(","))
+}
+
+
+fn opt_expr(e: &Option<expr::Expr>) -> String
+{
+    match e { Some(e) => expr_sexp(e), None => "-".to_string() }
+}
+
+
+fn hex_or_dash(s: &str) -> String
+{
+    if s.is_empty() { "-".to_string() } else { json::hex(s.as_bytes()) }
+}
+
+
+pub fn nodes_sexp(nodes: &Vec<asm::AstAny>) -> String
+{
+    nodes.iter().map(|n| format!(" {}", node_sexp(n))).collect::<String>()
+}
+
+
+pub fn node_sexp(n: &asm::AstAny) -> String
+{
+    match n
+    {
+        asm::AstAny::DirectiveAddr(d) => format!("(addr {})", expr_sexp(&d.expr)),
+        asm::AstAny::DirectiveAlign(d) => format!("(align {})", expr_sexp(&d.expr)),
+        asm::AstAny::DirectiveAssert(d) => format!("(assert {})", expr_sexp(&d.condition_expr)),
+        asm::AstAny::DirectiveRes(d) => format!("(res {})", expr_sexp(&d.expr)),
+        asm::AstAny::DirectiveBank(d) => format!("(bank {})", d.name),
+        asm::AstAny::DirectiveBankdef(d) => format!(
+            "(bankdef {} bits={} labelalign={} addr={} addr_end={} size={} outp={} fill={})",
+            d.name, opt_expr(&d.addr_unit), opt_expr(&d.label_align), opt_expr(&d.addr_start),
+            opt_expr(&d.addr_end), opt_expr(&d.addr_size), opt_expr(&d.output_offset), d.fill),
+        asm::AstAny::DirectiveBits(_) => "(bits)".to_string(),
+        asm::AstAny::DirectiveData(d) => format!(
+            "(data {}{})",
+            match d.elem_size { Some(s) => s.to_string(), None => "-".to_string() },
+            d.elems.iter().map(|e| format!(" {}", expr_sexp(e))).collect::<String>()),
+        asm::AstAny::DirectiveFn(d) => format!(
+            "(fn {} ({}) {})", d.name,
+            d.params.iter().map(|p| p.name.clone()).collect::<Vec<_>>().join(" "),
+            expr_sexp(&d.body)),
+        asm::AstAny::DirectiveIf(d) => format!(
+            "(if {} (then{}) {})", expr_sexp(&d.condition_expr), nodes_sexp(&d.true_arm.nodes),
+            match &d.false_arm { Some(f) => format!("(else{})", nodes_sexp(&f.nodes)), None => "-".to_string() }),
+        asm::AstAny::DirectiveInclude(d) => format!("(include {})", hex_or_dash(&d.filename)),
+        asm::AstAny::DirectiveLabelAlign(_) => "(labelalign)".to_string(),
+        asm::AstAny::DirectiveNoEmit(_) => "(noemit)".to_string(),
+        asm::AstAny::DirectiveOnce(_) => "(once)".to_string(),
+        asm::AstAny::DirectiveRuledef(d) => format!(
+            "(ruledef {} sub={}{})",
+            match &d.name { Some(n) => n.clone(), None => "-".to_string() },
+            d.is_subruledef,
+            d.rules.iter().map(|r| format!(
+                " (rule [{}] {})",
+                r.pattern.iter().map(|p| match p
+                {
+                    asm::AstRulePatternPart::Whitespace => "ws".to_string(),
+                    asm::AstRulePatternPart::Exact(c) => format!("x{}", json::hex(c.to_string().as_bytes())),
+                    asm::AstRulePatternPart::Parameter(p) => format!("{{{}:{}}}", p.name, match &p.typ
+                    {
+                        asm::AstRuleParameterType::Unspecified => "-".to_string(),
+                        asm::AstRuleParameterType::Ruledef(n) => format!("r{}", n),
+                        asm::AstRuleParameterType::Unsigned(n) => format!("u{}", n),
+                        asm::AstRuleParameterType::Signed(n) => format!("s{}", n),
+                        asm::AstRuleParameterType::Integer(n) => format!("i{}", n),
+                    }),
+                }).collect::<Vec<_>>().join(" "),
+                expr_sexp(&r.expr))).collect::<String>()),
+        asm::AstAny::Instruction(d) => format!("(instr {})", hex_or_dash(&d.src)),
+        asm::AstAny::Symbol(d) => format!(
+            "(sym {} {} {} {})", d.hierarchy_level, d.name,
+            match &d.kind
+            {
+                asm::AstSymbolKind::Label => "label".to_string(),
+                asm::AstSymbolKind::Constant(c) => format!("const {}", expr_sexp(&c.expr)),
+            },
+            d.no_emit),
+    }
+}
+
+
+/// parse <text_hex> : asm::parser::parse on one file
+fn op_parse(f: &[String]) -> String
+{
+    let text = json::unhex_str(&f[1]);
+    let mut report = diagn::Report::new();
+    let mut walker = syntax::Walker::new(&text, 0, 0);
+    match asm::parser::parse(&mut report, &mut walker)
+    {
+        Ok(ast) => format!("{{\"ok\":{}}}", json::string(&nodes_sexp(&ast.nodes))),
+        Err(()) => format!("{{\"err\":{}}}", json::string(&first_error(&report))),
+    }
 }
